@@ -93,8 +93,126 @@ TABLE = {
  ]),
 }
 
+MARK = "(* ==== appended by tools/mkprops.py (APPEND table) ==== *)"
+BASEIMP = "LV.Base LV.VV LV.VVFacts LV.Path LV.PathSpec LV.PathTerm LV.PathDistinct LV.PathApi LV.Prog LV.Objects LV.Exec LV.Atomic LV.Ops LV.Check"
+
+# theorems appended to Props files (hand-written or generated above): (imports, note, items)
+APPEND = {
+ "C14": [("LV.PathExhaust LV.ExecFacts LV.ExecFacts2",
+          "The abstract theorems above instantiated on the concrete iteration of the execution model (Check.iteration): L satisfies both iteration contracts (ExecFacts.L_iter_ok, ExecFacts2.L_iter_ok2)", [
+    ("C14_L_explore_terminates", "L_explore_terminates", "the exploration loop over the concrete iteration of the model L (every program, every fuel) stops by itself from the initial path"),
+    ("C14_L_decisions_distinct", "L_decisions_distinct", "and no two of its iterations take the same decisions"),
+ ])],
+ "C01": [("LV.PathExhaust LV.ExecFacts LV.ExecFacts2", "the same on the concrete execution model", [
+    ("C01_partial_L_iter_ok2", "L_iter_ok2", "the concrete iteration of the model L satisfies the second contract of dfs_exhaustive (one Active thread per entry, appended entries are fresh)"),
+    ("C01_partial_L_exhaustive_complete", "L_exhaustive_complete", "for every program: the exploration of L from the initial path stops by itself and every alternative registered by any of its iterations (Pending thread, further load candidate, spurious branch) is decided by some iteration with the same decisions before it"),
+ ])],
+ "C15": [("LV.PathPreempt", "Preemptions counted independently of the stored counter (PathPreempt.v)", [
+    ("C15_switches_le_preemptions", "switches_le_preemptions", "INDEPENDENT READING: the number of context switches away from a still-runnable thread, counted from the recorded schedule entries alone, never exceeds the stored preemption counter"),
+    ("C15_switches_le_bound", "switches_le_bound", "hence never exceeds the bound"),
+    ("C15_branch_thread_keeps_link", "branch_thread_pre_inv", "branch_thread keeps the linking invariant for every seed in which a switch away from the running thread happens only when that thread is Disabled or Yield"),
+    ("C15_step_keeps_link", "step_pre_inv", "step keeps it"),
+    ("C15_reachable_switches_le_bound", "reach_switches_le_bound", "every stack reachable through the Path API with such seeds has at most n counted switches"),
+ ]), ("LV.PathPreempt LV.ExecFacts LV.ExecFacts2 LV.ExecPreempt", "The seeds that Execution::schedule really passes satisfy the hypothesis, so the bound holds for the whole model (ExecPreempt.v)", [
+    ("C15_schedule_seed_ok", "sched_seed_ok", "the seed built by schedule keeps the running thread Active unless it is blocked or yielded, and contains no Pending / Visited"),
+    ("C15_L_iteration_switches_le_bound", "L_iteration_switches_le_bound", "every iteration of the model L from a stack at position 0: independently counted switches <= bound"),
+    ("C15_L_explore_switches_le_bound", "L_explore_switches_le_bound", "EVERY path of the exploration of EVERY program from the initial path has at most preemption_bound independently counted preemptions"),
+    ("C15_L_switches_nonvacuous", "L_switches_nonvacuous", "non-vacuity: a two-thread program with bound 1 explores a path with exactly one counted switch"),
+ ])],
+ "C03": [("LV.AtomicFacts LV.AtomicCoherence", "Exact characterisation of the candidate sets of loads and RMWs, for arbitrary states and any number of threads (AtomicCoherence.v)", [
+    ("C03_load_candidates_spec", "load_candidates_spec", "a ring slot is a load candidate iff it is live and no live store that is later in modification order is already seen by the thread / excluded by the yield or SeqCst rule"),
+    ("C03_coherence_write_read", "coherence_write_read", "CoWR / CoRR: a thread never reads a store that is mo-before a store it has already observed"),
+    ("C03_coherence_seq_cst", "coherence_seq_cst", "a SeqCst load never reads a SeqCst store that is mo-before another SeqCst store"),
+    ("C03_rmw_candidates_spec", "rmw_candidates_spec", "an RMW reads exactly a mo-maximal live store"),
+    ("C03_rmw_candidates_are_load_candidates", "rmw_candidates_are_load_candidates", "every RMW candidate is a load candidate"),
+    ("C03_load_candidates_none", "load_candidates_none", "loom's `left != right` assertion fires only when two distinct live stores have equal modification-order clocks"),
+    ("C03_rmw_atomicity_fixpoint", "rmw_atomicity_fixpoint", "RMW atomicity (fix 189e88b): at the fixpoint, every RMW store whose source is mo-before the new store is itself mo-before the new store"),
+    ("C03_rmw_atomicity_sufficient_fuel", "rmw_atomicity_sufficient_fuel", "the fixpoint is reached with fuel = ring size"),
+    ("C03_atomic_store_from_rmw_atomic", "atomic_store_from_rmw_atomic", "the postcondition of the model's own store: the new store is mo-after the thread's clock, after every store it has seen, and closed under RMW atomicity"),
+ ])],
+ "C02": [("LV.AtomicFacts LV.AtomicCoherence", "Nothing allowed is pruned without a reason: the candidate set is never empty and contains every mo-maximal store (AtomicCoherence.v)", [
+    ("C02_mo_maximal_is_candidate", "mo_maximal_is_candidate", "a live store with no mo-later live store is always a candidate"),
+    ("C02_mo_maximal_exists", "mo_maximal_exists", "such a store exists as soon as one store was made"),
+    ("C02_candidates_nonempty", "candidates_nonempty", "hence a load always has a candidate"),
+    ("C02_load_candidates_spec", "load_candidates_spec", "and a slot is excluded only for one of the three stated reasons"),
+ ])],
+ "C17": [("LV.SyncFacts LV.ExecFacts LV.SyncMono LV.TlsFacts", "Global bookkeeping invariants over whole runs of the model (TlsFacts.v)", [
+    ("C17_run_tls_count", "run_tls_count", "EXACT: in every run, the number of initialisations of key k logged for body b equals the number of threads of body b that have k initialised"),
+    ("C17_tls_init_once", "tls_init_once", "hence at most one initialisation per thread and key (threads identified by body: the side condition says no body is spawned twice)"),
+    ("C17_run_tls_nodup", "run_tls_nodup", "a thread's set of initialised keys has no duplicates"),
+    ("C17_lazy_init_once", "lazy_init_once", "a lazy static is initialised at most once per execution, in every run of every program"),
+    ("C17_lazy_none_stays", "lazy_none_stays", "after the shutdown at main's exit the registry stays shut under every micro-step"),
+    ("C17_lazy_get_after_shutdown", "lazy_get_after_shutdown", "and every later access fails with loom's shutdown panic"),
+    ("C17_lazy_get_acquires", "lazy_get_acquires", "an access to a registered lazy static acquires the view registered by its initialiser"),
+    ("C17_lazy_handover_global", "lazy_handover_global", "GLOBAL: initialisation happens-before every later successful access, whatever happens in between"),
+ ])],
+ "C18": [("LV.ExecFacts LV.YieldFacts", "Yield scheduling (YieldFacts.v): the decisions of Execution::schedule after yield_now", [
+    ("C18_yield_other_runnable", "yield_other_runnable", "a thread that yields is not chosen while another thread is runnable: the spin loop lets the writer run"),
+    ("C18_yield_alone_continues", "yield_alone_continues", "if nothing else can run the yielded thread continues (no false deadlock)"),
+    ("C18_yield_others_reactivated", "yield_others_reactivated", "after a scheduling decision every other yielded thread is runnable again"),
+    ("C18_schedule_succeeds", "schedule_succeeds", "schedule never fails while some thread is runnable or yielded and the stack has room"),
+ ])],
+ "C20": [("LV.SyncFacts LV.ExecFacts LV.SyncMono LV.NotifyFacts", "No lost wake-up at the level of rt::Notify, which backs block_on's waker (NotifyFacts.v)", [
+    ("C20_notified_persists", "notified_persists", "a pending notification survives every micro-step of every thread except the waiter's consuming step"),
+    ("C20_no_lost_wakeup", "no_lost_wakeup", "GLOBAL: after a wake, whatever happens in between, the waiter's wait does not block, its consuming step succeeds, and its clock then dominates the waker's clock at the wake"),
+    ("C20_wake_wait1_not_blocking", "wake_wait1_not_blocking", "all outcomes of entering the wait after a wake: proceed, or the one spurious return"),
+    ("C20_wait1_unnotified_blocks", "wait1_unnotified_blocks", "without a notification the waiter blocks (or takes the single spurious return)"),
+    ("C20_unnotified_waiter_blocked_until_post", "unnotified_waiter_blocked_until_post", "and stays blocked until a notify on that object: re-polls happen only after a wake"),
+    ("C20_spurious_at_most_once", "spurious_at_most_once", "the modelled spurious return happens at most once per Notify"),
+ ])],
+ "C08": [("LV.NotifyFacts", "Global persistence of notifications (NotifyFacts.v)", [
+    ("C08_no_lost_wakeup", "no_lost_wakeup", "GLOBAL: a notification is never lost: after notify, over any steps of any threads, the wait proceeds and acquires the notifier's clock"),
+    ("C08_blocked_waiter_stays", "blocked_waiter_stays", "a blocked waiter is not resumed by anything but a notify on its object"),
+    ("C08_spurious_at_most_once", "spurious_at_most_once", "at most one spurious return per Notify"),
+ ])],
+ "C07": [("LV.ExecFacts LV.SyncMono LV.ExclFacts", "MUTUAL EXCLUSION AS A GLOBAL INVARIANT of every run of every program (ExclFacts.v)", [
+    ("C07_run_excl_inv", "run_excl_inv", "the exclusion invariant (lock word = the one thread inside; a write guard excludes every other guard; registered readers own guards) holds in the final state of every non-panicking run; every intermediate state is such a final state for smaller fuel"),
+    ("C07_mutex_exclusion", "mutex_exclusion", "if two distinct threads own a guard of one mutex, one of them is inside Condvar::wait and has given the mutex up (its next step is the re-acquisition)"),
+    ("C07_mutex_lock_owner", "mutex_lock_owner", "the lock word names exactly the thread that is inside the mutex"),
+    ("C07_lock_acquire_only_when_free", "lock_acquire_only_when_free", "an acquisition that hands out a guard ran on a free mutex"),
+    ("C07_lock_no_second_owner", "lock_no_second_owner", "while a thread is inside, another thread's acquisition step can only be a failing try_lock"),
+    ("C07_rwlock_writer_excludes", "rwlock_writer_excludes", "a write guard never coexists with another thread's read or write guard on the same RwLock"),
+    ("C07_mutex_guard_once", "mutex_guard_once", "a thread never owns two guards of one mutex (recursive lock deadlocks, recursive try_lock fails)"),
+    ("C07_recursive_read_corrupt", "recursive_read_corrupt", "witness (computed): after a recursive read the runtime's reader SET and the std lock's guard COUNT disagree and the wrapper's `RwLock state corrupt` panic is what the run ends with"),
+ ])],
+ "C09": [("LV.CountFacts", "Counting invariants over whole runs (CountFacts.v)", [
+    ("C09_run_chan_inv", "run_chan_inv", "EVERY run of EVERY program: runtime message count = number of queued views = length of the std queue (while the receiver lives)"),
+    ("C09_send_appends_one", "send_appends_one", "a send appends exactly its value at the back"),
+    ("C09_recv_removes_front", "recv_removes_front", "a receive removes exactly the front value and returns it"),
+    ("C09_queue_step_shape", "queue_step_shape", "every micro-step leaves a queue unchanged, appends one value or removes the front: no loss, no duplication, no reordering"),
+    ("C09_steps_queue_fifo", "steps_queue_fifo", "FIFO over any number of steps"),
+    ("C09_recv_never_empty_handed", "recv_never_empty_handed", "when the runtime lets a receive proceed the std queue is not empty"),
+ ])],
+ "C11": [("LV.CountFacts", "Reference count = live handles, over whole runs (CountFacts.v)", [
+    ("C11_run_count_inv", "run_count_inv", "every run whose handle uses are disciplined (no clone into an occupied slot, no try_unwrap racing a drop of the same handle: both impossible in safe Rust): count = live handles + drops in flight"),
+    ("C11_strong_count_is_live_handles", "strong_count_is_live_handles", "strong_count returns exactly that number"),
+    ("C11_final_drop_iff_last_handle", "final_drop_iff_last_handle", "the value is destroyed exactly by the drop that removes the last handle"),
+    ("C11_no_double_release", "no_double_release", "the 'already released' failure is unreachable"),
+    ("C11_try_unwrap_iff_unique", "try_unwrap_iff_unique", "try_unwrap / get_mut succeed exactly for a unique handle"),
+ ])],
+}
+
+
+def append_all(pid):
+    path = os.path.join(COQ, "Props", pid + ".v")
+    s = open(path).read()
+    if MARK in s:
+        s = s[:s.index(MARK)]
+    s = s.rstrip("\n") + "\n\n" + MARK + "\n"
+    for imports, note, items in APPEND.get(pid, []):
+        s += f"\nRequire Import {BASEIMP} {imports}.\n\n(* {note} *)\n"
+        for name, lemma, comment in items:
+            ty = coq_type(BASEIMP + " " + imports, lemma)
+            s += f"(* {comment} *)\nTheorem {name} :\n  {ty}.\nProof. exact {lemma}. Qed.\nPrint Assumptions {name}.\n\n"
+    open(path, "w").write(s)
+    print("appended", pid, sum(len(x[2]) for x in APPEND.get(pid, [])), "theorems")
+
+
 if __name__ == "__main__":
     which = sys.argv[1:] or list(TABLE)
     for pid in which:
-        header, items = TABLE[pid]
-        write(pid, header, IMP, items)
+        if pid in TABLE:
+            header, items = TABLE[pid]
+            write(pid, header, IMP, items)
+        if pid in APPEND:
+            append_all(pid)
